@@ -400,7 +400,8 @@ bool ASTInterpreter::ViDeclarative(Cursor iter) {
   }
   const auto varID = *begin(nodeVars[iter.Child(0).get()]);
   auto result = Factory::EmptySet();
-  for (const auto& child : setDomain->B()) {
+  // Note: copy the element, a reference into the cache of a lazy set does not survive nested evaluation
+  for (const auto child : setDomain->B()) { // NOLINT(performance-for-range-copy)
     if (++iterationCounter > MAX_ITERATIONS) {
       OnError(
         ValueEID::iterationsLimit,
